@@ -364,4 +364,89 @@ Section Session.
       destruct (IH (X ++ ch) c' (bl ++ bl') HI' HJ' Hm' Hr) as (outs & c2 & bl2 & R1 & R2 & R3 & R4 & R5).
       exists (o :: outs), c2, bl2. rewrite R1, R2. cbn [concat]. rewrite <- app_assoc in R3. auto.
   Qed.
+
+  (* [comp_contract] of Proofs/FileProofs.v for contents below 2^64 bytes and a dictID below 2^32 *)
+  Definition comp_contract_open (cst : Type) (cst0 : cst)
+             (cBegin : cst -> option SZ.prefs -> Z -> fres (list byte) * cst)
+             (cUpdate : cst -> list byte -> Z -> fres (list byte) * cst)
+             (cEnd : cst -> Z -> fres (list byte) * cst) : Prop :=
+    forall po mw chunks,
+      maxWrite_of po = Some mw ->
+      Forall (fun ch => (1 <= length ch <= mw)%nat) chunks ->
+      FileProofs.csize_ok po (concat chunks) ->
+      prefs_wf po -> Z.of_nat (length (concat chunks)) < U64 ->
+      let cap := SZ.compressBound (Z.of_nat mw) po in
+      exists hdr s1 outs s2 tail s3,
+        cBegin cst0 po LZ4F_HEADER_SIZE_MAX = (FOk hdr, s1) /\
+        run_updates cst cUpdate s1 chunks cap = (Some outs, s2) /\
+        cEnd s2 cap = (FOk tail, s3) /\
+        frame_ok (hdr ++ concat outs ++ tail) (concat chunks).
+
+  Theorem fc_comp_contract_open : comp_contract_open cctx cctx_zero fc_begin (fc_update blk) (fc_end blk).
+  Proof.
+    intros po mw chunks Hmw Hall Hcs Hwf HX cap.
+    pose proof (cvpo_ok po mw (concat chunks) Hmw Hwf Hcs HX) as Hpo.
+    destruct (begin_out cctx_zero (cvpo po) Hpo) as (hdr & c1 & HB).
+    destruct (begin_inv strict_valid cctx_zero (cvpo po) NoDict hdr c1 Hpo HB) as (p & maxb & Hp & Hnorm & Hmaxb & Hhdr & HI1).
+    pose proof (bsid_size_range _ _ Hmaxb) as Hmax.
+    destruct (maxWrite_cases po mw Hmw) as [Hpok Hbs].
+    assert (Hq : szp p = SO.begin_prefs po) by (rewrite Hp; apply szp_eff).
+    assert (Hmb : Z.of_nat mw = maxb).
+    { rewrite Hbs, <- Hq. cbn [szp SZ.p_bsid]. apply sz_getBlockSize_bsid. exact Hmaxb. }
+    (* the context LZ4F_compressBegin leaves: nothing buffered, compressed mode *)
+    assert (Ht1 : c_tmp c1 = []).
+    { destruct HI1 as [_ HX1 _ _ _ _]. cbn in HX1. symmetry. exact HX1. }
+    assert (Hm1 : c_mode c1 = FC_LZ4B_COMPRESSED).
+    { revert HB. unfold compressBegin, compressBegin_internal. destruct (isError _); [discriminate|].
+      cbn. intro H. inversion H; subst. reflexivity. }
+    assert (HJ1 : afJ c1) by (intros _; exact Ht1).
+    destruct (updates_run po mw p maxb Hmw Hp Hnorm Hmaxb chunks [] c1 [] HI1 HJ1 Hm1 Hall)
+      as (outs & c2 & bl2 & R1 & R2 & HI2 & HJ2 & Hm2).
+    cbn [app] in HI2.
+    assert (Hlen : len (concat chunks) < U64) by exact HX.
+    assert (Hcsz : p_contentSize p = 0 \/ p_contentSize p = len (concat chunks)).
+    { rewrite Hp. unfold eff_prefs, cvpo. destruct po as [q|]; cbn [option_map]; [|left; reflexivity].
+      cbn in Hcs. destruct (p_bsid (cvp q) =? 0); cbn; exact Hcs. }
+    destruct (end_out blk Hblk NoDict p maxb (concat chunks) c2 bl2 Hnorm Hmax HI2 Hlen Hcsz) as (tail & c3 & HE).
+    exists hdr, c1, outs, c2, tail, c3.
+    split.
+    { unfold fc_begin. change (LZ4F_HEADER_SIZE_MAX <? maxFHSize) with false. cbv iota. rewrite HB. reflexivity. }
+    split; [exact R1|]. split.
+    { (* the capacity tests of LZ4F_compressEnd pass *)
+      assert (Hst : c_stage c2 = 1) by (destruct HI2 as [[? Hs ? ? ? ? ?] ? ? ? ? ?]; exact Hs).
+      assert (Hpr : c_prefs c2 = p) by (destruct HI2 as [[Hs ? ? ? ? ? ?] ? ? ? ? ?]; exact Hs).
+      assert (Htmp : len (c_tmp c2) < maxb) by (destruct HI2 as [? ? Ht ? ? ?]; exact Ht).
+      pose proof (len_nonneg (c_tmp c2)) as Ht0.
+      assert (Haf : SZ.p_af (SO.begin_prefs po) = true -> len (c_tmp c2) = 0).
+      { intro A. rewrite <- Hq in A. cbn [szp SZ.p_af] in A. apply negb_true_iff, Z.eqb_neq in A.
+        unfold afJ in HJ2. rewrite Hpr in HJ2. rewrite (HJ2 A). reflexivity. }
+      pose proof (cap_end po mw (len (c_tmp c2)) Hmw ltac:(lia) Haf) as CE. cbv zeta in CE. fold cap in CE.
+      rewrite <- Hq in CE. cbn [szp SZ.p_bchk] in CE. unfold SP.frameEnd, SP.bfull in CE. cbn [szp SZ.p_cchk] in CE.
+      pose proof Hnorm as [(_ & _ & Hcc & Hbc & _) _].
+      unfold fc_end. rewrite Hst, Hpr. cbn [Z.eqb Pos.eqb andb].
+      destruct (flush blk c2) as [rf cf] eqn:Ef.
+      destruct (flush_inv blk strict_valid Hblk strict_valid_ext NoDict p maxb _ c2 bl2 rf cf Hnorm Hmax HI2 Ef) as (blf & -> & _).
+      pose proof (flush_len c2 _ cf Ef) as FL. rewrite Hpr in FL.
+      unfold BHSize, BFSize, FC_contentChecksumEnabled in *.
+      assert (C1 : ((0 <? len (c_tmp c2)) && true && (cap <? len (c_tmp c2) + 4 + 4)) = false).
+      { destruct (0 <? len (c_tmp c2)) eqn:E; [|reflexivity]. cbn [andb]. apply Z.ltb_ge.
+        destruct (negb (p_bcrc p =? 0)), (negb (p_ccrc p =? 0)); cbn [SZ.bz] in CE; lia. }
+      rewrite C1.
+      assert (C2 : (cap - len (enc_blocks (p_bcrc p =? 1) blf) <? 4) = false).
+      { apply Z.ltb_ge. destruct (0 <? len (c_tmp c2)); destruct Hbc as [Hbc|Hbc]; rewrite Hbc in *;
+          cbn [Z.eqb Pos.eqb negb SZ.bz] in FL, CE |- *; destruct (negb (p_ccrc p =? 0)); cbn [SZ.bz] in CE; lia. }
+      rewrite C2.
+      assert (C3 : ((p_ccrc p =? 1) && (cap - len (enc_blocks (p_bcrc p =? 1) blf) <? 8)) = false).
+      { destruct Hcc as [Hcc|Hcc]; rewrite Hcc in *; [reflexivity|]. cbn [Z.eqb Pos.eqb andb]. apply Z.ltb_ge.
+        destruct (0 <? len (c_tmp c2)); destruct Hbc as [Hbc|Hbc]; rewrite Hbc in *;
+          cbn [Z.eqb Pos.eqb negb SZ.bz] in FL, CE |- *; lia. }
+      rewrite C3. rewrite HE. reflexivity. }
+    (* one frame, decoded by the format specification to the content *)
+    assert (HS : session blk cctx_zero (cvpo po) NoDict (map MUpdate chunks) = Some (hdr ++ concat outs ++ tail, concat chunks)).
+    { unfold session. rewrite HB, R2, HE. rewrite mop_inputs_updates. reflexivity. }
+    assert (Hunc : uncompressed_only_if_independent (cvpo po) (map MUpdate chunks)).
+    { intros m Hin Hu. apply in_map_iff in Hin. destruct Hin as (x & <- & _). discriminate Hu. }
+    destruct (c07_conformant blk Hblk cctx_zero (cvpo po) NoDict (map MUpdate chunks) (hdr ++ concat outs ++ tail) (concat chunks) Hpo Hunc Hlen HS) as (mb & bl & Hc).
+    cbv zeta in Hc. unfold frame_ok. apply Hc.
+  Qed.
 End Session.
